@@ -112,7 +112,8 @@ int main(int argc, char** argv) {
     sd::Rng r2(s ^ 0x5DEECE66DULL);
     vsim::Config cfg = sd::swarm(r2, {0, 0, 300, 3000, 30000}, {}, est_len);
     cfg.starve_victim = r.range(0, nworker);
-    cfg.opp_cap = 400000000ULL;   // backstop only; livelock is decided by the no-progress counter (largest unchanged-tree run: see max_opportunities)
+    cfg.opp_cap = 20000000000ULL;   // backstop only; livelock is decided by the no-progress counter.  >100x the largest unchanged-tree run (evidence: max_opportunities;
+                                    // the earlier 4e8 was only 3x above it, and a soak met a dense RK4/Newton/elliptic history of 3.7e8 basic blocks: a false "livelock")
     sd::apply_overrides(cfg);
     mjData* P = mu::make_data(m, s * 2 + 1);     // pooled
     mjData* S = mu::make_data(m, s * 2 + 2);     // single-threaded twin
